@@ -667,7 +667,12 @@ def scratch(drv, scale):
         o["rng"] = "scripted"            # same code path (a generator object is supplied), controllable noise
     o["x0form"] = "array"
     # its own target object: a scratch sampler must not share work buffers (reused gradient array) with the sampler under test
-    return Driver(drv.site, Tgt(drv.T.spec), scale, np.ones(drv.T.dim), prior=drv.prior_spec, opts=o)
+    scr = Driver(drv.site, Tgt(drv.T.spec), scale, np.ones(drv.T.dim), prior=drv.prior_spec, opts=o)
+    if o.get("defaults"):
+        # a sampler built with every argument at its default starts from the default scale; the mechanism has to be read off at
+        # the scale the sampler under test HAS NOW (after warm-up it is the tuned one)
+        scr.s.scale = np.array(scale, dtype=float) if (scr.kind == "cw" or np.size(scale) > 1) else float(np.ravel(scale)[0])
+    return scr
 
 
 def propose(scr, x, z):
@@ -1770,6 +1775,7 @@ def tune_twin_cases(ctx):
                 drv = Driver(site, Tgt(tspec), scale0, [0.0] * d, prior={"mean": [0.0] * d, "cov": 1.0} if kind == "pcn" else None)
                 s_ = drv.s
                 s_._acc = [np.array(w, dtype=float) if kind == "cw" else w[0] for w in hist]
+                drv.acc_log = [list(w) for w in hist[1:]] + [[0] * len(hist[0])]      # the harness's own record: same flags + the step in progress
                 n0 = len(drv.tune_log)
                 with _quiet(), np.errstate(all="ignore"):
                     s_.tune(T_, i_)
